@@ -45,11 +45,13 @@ func Compact(buf *bytes.Buffer, src []byte, escape bool) error {
 }
 
 func compactAndWrite(buf *bytes.Buffer, dst []byte, src []byte, escape bool) error {
+	// dst holds the bytes already in buf: only what compact appends is new
+	n := len(dst)
 	dst, err := compact(dst, src, escape)
 	if err != nil {
 		return err
 	}
-	if _, err := buf.Write(dst); err != nil {
+	if _, err := buf.Write(dst[n:]); err != nil {
 		return err
 	}
 	return nil
